@@ -414,7 +414,7 @@ func c12BuildRequest(act c12Actual, o c12ReqOpts) *http.Request {
 // ---------------------------------------------------------------------------
 
 type c12Case struct {
-	Kind     string     `json:"kind"` // matrix | repeat | history | trailers | nameless | timeout
+	Kind     string     `json:"kind"` // matrix | repeat | history | overlap | trailers | nameless | timeout
 	Name     string     `json:"name,omitempty"`
 	Exp      *c12Side   `json:"exp,omitempty"`
 	Act      *c12Actual `json:"act,omitempty"`
@@ -471,6 +471,8 @@ func c12RunCase(c c12Case) (res c12Result) {
 		c12RunRepeat(c, &res)
 	case "history":
 		c12RunHistory(c, &res)
+	case "overlap":
+		c12RunOverlap(c, &res)
 	case "trailers":
 		c12RunTrailers(c, &res)
 	case "nameless":
@@ -611,6 +613,172 @@ func c12RunHistory(c c12Case, res *c12Result) {
 	res.outcome = "history:len=" + strconv.Itoa(len(c.Variant))
 }
 
+// overlap: several fully matching requests are IN FLIGHT AT THE SAME TIME on
+// one server. Variant = "<names>/<release order>", e.g. "aba/201": request #1
+// (name a) is started and parks inside the inner handler, then #2 (name b), then
+// #3 (name a again) are started the same way; then the handlers are released in
+// the order #3, #1, #2. The schedule is forced with channels only: request i+1 is
+// started when request i has reached the inner handler (or returned), a handler
+// returns only when it is released. Feedback is attributed by the point in the
+// schedule at which it appears (everything else is parked at that point).
+// Oracle (property text: feedback naming the test case "for a repeated request of
+// the same test"): every request whose name was already used by an earlier
+// request of the sequence - finished or not - draws feedback with its test name,
+// a request with a new name draws none, every request is served exactly once and
+// releasing the handlers adds nothing. Afterwards each used name, sent once more,
+// is a repeat, and a fresh name is not.
+type c12ParkInner struct {
+	entered chan int
+	release []chan struct{}
+}
+
+func (in *c12ParkInner) ServeHTTP(_ http.ResponseWriter, req *http.Request) {
+	id, err := strconv.Atoi(req.Header.Get("X-C12-Request-Id"))
+	if err != nil || id < 0 || id >= len(in.release) {
+		in.entered <- -1
+		return
+	}
+	in.entered <- id
+	<-in.release[id]
+}
+
+type c12OverlapObs struct {
+	Request      int      `json:"request"`
+	Name         string   `json:"name"`
+	Repeat       bool     `json:"repeat_of_earlier_request"`
+	ReachedInner bool     `json:"reached_inner_while_others_in_flight"`
+	LinesAtStart []string `json:"lines_when_started"`
+	LinesAtEnd   []string `json:"lines_when_released"`
+	Panic        string   `json:"panic,omitempty"`
+}
+
+func c12RunOverlap(c c12Case, res *c12Result) {
+	parts := strings.Split(c.Variant, "/")
+	seq, order := parts[0], parts[1]
+	n := len(seq)
+	names := map[byte]string{'a': c.Name, 'b': c.Name + "x", 'c': "other/" + c.Name}
+	var buf bytes.Buffer
+	inner := &c12ParkInner{entered: make(chan int), release: make([]chan struct{}, n+8)}
+	for i := range inner.release {
+		inner.release[i] = make(chan struct{})
+	}
+	handler := rawResponder(referenceServerChecks(inner, internal.NewPrinter(&buf)))
+	consumed := 0
+	newLines := func() []string { // only called while every started request is parked or finished
+		text := buf.String()[consumed:]
+		consumed = buf.Len()
+		if text == "" {
+			return nil
+		}
+		return strings.Split(strings.TrimSuffix(text, "\n"), "\n")
+	}
+	act := *c.Act
+	exp := act.c12Side
+	done := make([]chan string, n+8)
+	// start: serve request id in its own goroutine; wait until it is parked in the inner handler or has returned.
+	start := func(id int, name string) (reached bool, finished bool, pan string) {
+		req := c12BuildRequest(act, c12ReqOpts{name: &name, exp: &exp})
+		req.Header.Set("X-C12-Request-Id", strconv.Itoa(id))
+		done[id] = make(chan string, 1)
+		go func() {
+			p := ""
+			defer func() {
+				if v := recover(); v != nil {
+					p = fmt.Sprint(v)
+				}
+				done[id] <- p
+			}()
+			handler.ServeHTTP(httptest.NewRecorder(), req)
+		}()
+		select {
+		case got := <-inner.entered:
+			return got == id, false, ""
+		case p := <-done[id]:
+			return false, true, p
+		}
+	}
+	obs := make([]c12OverlapObs, n)
+	finished := make([]bool, n)
+	seen := map[byte]bool{}
+	for i := 0; i < n; i++ {
+		ch := seq[i]
+		o := &obs[i]
+		o.Request, o.Name, o.Repeat = i+1, names[ch], seen[ch]
+		o.ReachedInner, finished[i], o.Panic = start(i, names[ch])
+		o.LinesAtStart = newLines()
+		seen[ch] = true
+		if o.Panic != "" {
+			res.fail("panic:overlap", "middleware panicked: %s", o.Panic)
+		}
+		if !o.ReachedInner {
+			res.fail("matching-request-not-served:overlap", "request #%d of %q (all aspects match) did not reach the inner handler while %d earlier request(s) were in flight", i+1, c.Variant, i)
+		}
+		c12PrefixOK(res, o.LinesAtStart, o.Name, "overlap")
+		if o.Repeat && len(o.LinesAtStart) == 0 {
+			res.fail("repeat-not-flagged:overlapping", "request #%d of %q repeats test %q while the earlier request(s) of the sequence are still in flight, but got no feedback", i+1, c.Variant, o.Name)
+		}
+		if !o.Repeat && len(o.LinesAtStart) != 0 {
+			res.fail("false-feedback:repeat:overlapping", "request #%d of %q is the first for test %q but got feedback %q", i+1, c.Variant, o.Name, o.LinesAtStart)
+		}
+	}
+	for _, d := range order {
+		id := int(d - '0')
+		if finished[id] {
+			continue
+		}
+		close(inner.release[id])
+		if p := <-done[id]; p != "" {
+			obs[id].Panic = p
+			res.fail("panic:overlap", "middleware panicked: %s", p)
+		}
+		finished[id] = true
+		obs[id].LinesAtEnd = newLines()
+		if len(obs[id].LinesAtEnd) != 0 {
+			res.fail("false-feedback:overlap-release", "request #%d of %q matches in every aspect; when its handler returned, feedback %q appeared", id+1, c.Variant, obs[id].LinesAtEnd)
+		}
+	}
+	// afterwards: every used name is now a repeat, a fresh one is not
+	after := []c12OverlapObs{}
+	id := n
+	follow := func(name string, repeat bool) {
+		o := c12OverlapObs{Request: id + 1, Name: name, Repeat: repeat}
+		var fin bool
+		o.ReachedInner, fin, o.Panic = start(id, name)
+		o.LinesAtStart = newLines()
+		if !fin {
+			close(inner.release[id])
+			o.Panic = <-done[id]
+			o.LinesAtEnd = newLines()
+		}
+		id++
+		if o.Panic != "" {
+			res.fail("panic:overlap", "middleware panicked: %s", o.Panic)
+		}
+		c12PrefixOK(res, o.LinesAtStart, name, "overlap")
+		if repeat && len(o.LinesAtStart) == 0 {
+			res.fail("repeat-not-flagged:after-overlap", "after the overlapping requests of %q completed, one more request of test %q got no feedback", c.Variant, name)
+		}
+		if !repeat && len(o.LinesAtStart)+len(o.LinesAtEnd) != 0 {
+			res.fail("false-feedback:repeat:after-overlap", "after %q, the first request of test %q got feedback %q %q", c.Variant, name, o.LinesAtStart, o.LinesAtEnd)
+		}
+		after = append(after, o)
+	}
+	for _, ch := range []byte("abc") {
+		if seen[ch] {
+			follow(names[ch], true)
+		}
+	}
+	follow("fresh/"+c.Name, false)
+	res.observed = map[string]any{"overlapping": obs, "afterwards": after}
+	repeats := 0
+	for _, o := range obs {
+		if o.Repeat {
+			repeats++
+		}
+	}
+	res.outcome = fmt.Sprintf("overlap:requests=%d:repeats=%d", n, repeats)
+}
+
 // trailers: a fully matching POST whose body ends with HTTP trailers.
 // Variant = "<eof|declared>/<drain|nodrain>".
 func c12RunTrailers(c c12Case, res *c12Result) {
@@ -702,6 +870,22 @@ func c12ErrorKind(rec *httptest.ResponseRecorder) string {
 		}
 	}
 	return "none"
+}
+
+// c12OverlapVariants: name sequences of length 2 and 3 (canonical: the first new
+// name is a, the next b, then c) x all release orders.
+func c12OverlapVariants() []string {
+	var out []string
+	for _, seq := range []string{"aa", "ab", "aaa", "aab", "aba", "abb", "abc"} {
+		orders := []string{"01", "10"}
+		if len(seq) == 3 {
+			orders = []string{"012", "021", "102", "120", "201", "210"}
+		}
+		for _, o := range orders {
+			out = append(out, seq+"/"+o)
+		}
+	}
+	return out
 }
 
 // ---------------------------------------------------------------------------
@@ -1020,7 +1204,7 @@ var c12Suffixes = []string{"", "H", "M", "S", "m", "u", "n", "x"}
 func TestVerifC12(t *testing.T) {
 	r := rep.New("c12-enum")
 	defer r.Write()
-	r.Rule = "matrix: every (expected side of 864) x (actual request a client can produce: 3 HTTP versions x {Connect POST unary, Connect POST stream, Connect GET, gRPC, gRPC-Web, bare gRPC/gRPC-Web content type} x 2 codecs x 6 compressions (+identity spelled out) x TLS/cert) pair, each a distinct request served by a fresh middleware; plus per actual request: same name twice, name histories up to length 4, HTTP trailers (2 delivery styles x body drained or not), test name absent/empty. timeouts: per protocol every string up to the tier's length over the 13-character alphabet {0,1,9,H,M,S,m,u,n,+,-,space,x}, digit strings of length 7..12 with every unit/no unit/bad unit, computed boundary numbers (digit limits, MaxInt64/unit +-2, zero padded). Every case is distinct by construction and counted as non-trivial; outcomes = observed classes (silent/flagged by number of deviating aspects, accepted/saturated/rejected by reason)"
+	r.Rule = "matrix: every (expected side of 864) x (actual request a client can produce: 3 HTTP versions x {Connect POST unary, Connect POST stream, Connect GET, gRPC, gRPC-Web, bare gRPC/gRPC-Web content type} x 2 codecs x 6 compressions (+identity spelled out) x TLS/cert) pair, each a distinct request served by a fresh middleware; plus per actual request: same name twice, name histories up to length 4, 2 and 3 requests in flight at the same time (inner handler parked on a channel; every assignment of same/different test names x every release order; per protocol, Connect also GET), HTTP trailers (2 delivery styles x body drained or not), test name absent/empty. timeouts: per protocol every string up to the tier's length over the 13-character alphabet {0,1,9,H,M,S,m,u,n,+,-,space,x}, digit strings of length 7..12 with every unit/no unit/bad unit, computed boundary numbers (digit limits, MaxInt64/unit +-2, zero padded). Every case is distinct by construction and counted as non-trivial; outcomes = observed classes (silent/flagged by number of deviating aspects, accepted/saturated/rejected by reason)"
 	if err := c12EnumSanity(); err != nil {
 		t.Fatal(err)
 	}
@@ -1116,6 +1300,21 @@ func TestVerifC12(t *testing.T) {
 			buf := make([]byte, l)
 			for i := int64(0); i < c12Pow(3, l); i++ {
 				run(c12Case{Kind: "history", Act: &act, Variant: c12NthString([]byte("abc"), l, i, buf)}, 53)
+			}
+		}
+	}
+
+	// overlapping requests on one server: 2 and 3 requests in flight together, every assignment of
+	// test names (same / different, canonical up to renaming) x every order of releasing the handlers
+	for _, p := range []int{c12Connect, c12GRPC, c12GRPCWeb} {
+		for _, method := range []string{http.MethodPost, http.MethodGet} {
+			if method == http.MethodGet && p != c12Connect {
+				continue
+			}
+			act := c12TimeoutActual(p)
+			act.Method = method
+			for _, v := range c12OverlapVariants() {
+				run(c12Case{Kind: "overlap", Act: &act, Variant: v}, 17)
 			}
 		}
 	}
